@@ -163,9 +163,8 @@ pub fn check_format(m: &BitMat, text: &str, padded: bool) -> Result<(), String> 
                 return Err(format!("{}: {} tokens for maximum weight {} in padded form ({:?})", what, t.len(), maxw, line));
             }
         } else {
-            // unpadded: the indices only (a lone 0 for an empty list is tolerated)
-            let ok = zeros == 0 || (want.is_empty() && zeros == 1);
-            if !ok {
+            // unpadded: the indices only, no zero at all (an empty list is an empty line)
+            if zeros != 0 {
                 return Err(format!("{}: padding zeros in unpadded form ({:?})", what, line));
             }
         }
@@ -220,7 +219,7 @@ fn write_with(m: &SparseMatrix, padded: bool, w: &mut FaultyWriter) -> Result<st
 /// A failing case, in replayable form.
 #[derive(Clone, Debug)]
 pub enum Case {
-    RoundTrip { matrix: String, padded: bool },
+    RoundTrip { matrix: String, padded: bool, shuffle: u64 },
     WriterCall { matrix: String, padded: bool, call: usize },
     WriterBudget { matrix: String, padded: bool, budget: usize },
     Text { text: String, origin: String },
@@ -230,7 +229,7 @@ pub enum Case {
 impl Case {
     pub fn to_json(&self) -> Value {
         match self {
-            Case::RoundTrip { matrix, padded } => json!({"kind": "roundtrip", "matrix_alist": matrix, "padded": padded}),
+            Case::RoundTrip { matrix, padded, shuffle } => json!({"kind": "roundtrip", "matrix_alist": matrix, "padded": padded, "insertion_order_seed": shuffle.to_string()}),
             Case::WriterCall { matrix, padded, call } => json!({"kind": "writer-call", "matrix_alist": matrix, "padded": padded, "fail_at_call": call}),
             Case::WriterBudget { matrix, padded, budget } => json!({"kind": "writer-budget", "matrix_alist": matrix, "padded": padded, "byte_budget": budget}),
             Case::Text { text, origin } => json!({"kind": "text", "text": text, "origin": origin}),
@@ -241,7 +240,7 @@ impl Case {
         let m = || v["matrix_alist"].as_str().map(|s| s.to_string());
         let p = || v["padded"].as_bool();
         Some(match v["kind"].as_str()? {
-            "roundtrip" => Case::RoundTrip { matrix: m()?, padded: p()? },
+            "roundtrip" => Case::RoundTrip { matrix: m()?, padded: p()?, shuffle: v["insertion_order_seed"].as_str().and_then(|s| s.parse().ok()).unwrap_or(0) },
             "writer-call" => Case::WriterCall { matrix: m()?, padded: p()?, call: v["fail_at_call"].as_u64()? as usize },
             "writer-budget" => Case::WriterBudget { matrix: m()?, padded: p()?, budget: v["byte_budget"].as_u64()? as usize },
             "text" => Case::Text { text: v["text"].as_str()?.to_string(), origin: v["origin"].as_str().unwrap_or("").to_string() },
@@ -272,9 +271,10 @@ fn matrix_from_own_alist(s: &str) -> Option<BitMat> {
 /// Evaluate one case; Some(violation) if the property fails on it.
 pub fn eval_case(case: &Case, stats: &mut Counters) -> Option<Violation> {
     match case {
-        Case::RoundTrip { matrix, padded } => {
+        Case::RoundTrip { matrix, padded, shuffle } => {
             let m = matrix_from_own_alist(matrix)?;
-            let sm = m.to_sparse();
+            // ones inserted in a random order: the text must not depend on it
+            let sm = if *shuffle == 0 { m.to_sparse() } else { m.to_sparse_shuffled(*shuffle) };
             let mut w = FaultyWriter::new(None, None);
             match write_with(&sm, *padded, &mut w) {
                 Err(p) => return Some(Violation::new("writer-panic", format!("writing a {}x{} matrix ({}) panicked: {}", m.r, m.c, if *padded { "padded" } else { "unpadded" }, p))),
@@ -433,6 +433,21 @@ pub fn storage_faults(g: &mut Stream, text: &str, other: &str, stats: &mut Count
             stats.inc("faults_fired/index out of range");
         }
     }
+    // absurd values on the maximum-weight / weight lines (they are not dimensions)
+    for _ in 0..6 {
+        let li = 1 + g.below(3.min(nl.saturating_sub(1)).max(1) as u64) as usize;
+        if li < nl {
+            let mut v: Vec<String> = lines.iter().map(|s| s.to_string()).collect();
+            let mut toks: Vec<String> = v[li].split(' ').map(|s| s.to_string()).collect();
+            if !toks.is_empty() {
+                let ti = g.below(toks.len() as u64) as usize;
+                toks[ti] = g.pick(&["18446744073709551615", "4611686018427387904", "9223372036854775807", "18446744073709551616", "4294967296", "-1", "99999999999999999999999"]).to_string();
+                v[li] = toks.join(" ");
+                out.push((v.join("\n"), "absurd weight value"));
+                stats.inc("faults_fired/absurd value on a weight line");
+            }
+        }
+    }
     out.push((text.replace('\n', "\r\n"), "CRLF"));
     stats.inc("faults_fired/CRLF line ends");
     out.push((format!("{}garbage 1 2 3\n\u{0}\u{1}", text), "trailing garbage"));
@@ -552,7 +567,8 @@ pub fn main(opts: &Opts) -> ! {
             }
         };
         for padded in [true, false] {
-            run(Case::RoundTrip { matrix: own.clone(), padded }, &mut c, &mut fails);
+            run(Case::RoundTrip { matrix: own.clone(), padded, shuffle: 0 }, &mut c, &mut fails);
+            run(Case::RoundTrip { matrix: own.clone(), padded, shuffle: 1 + g.next() % 1_000_000 }, &mut c, &mut fails);
             run(Case::OwnText { matrix: own.clone(), padded }, &mut c, &mut fails);
             // writer faults: every write call, every byte budget
             let sm = m.to_sparse();
